@@ -30,6 +30,8 @@ FEATURE_PREFIXES = ('improvement', 'bugfix', 'feature', 'project',
                     'documentation', 'design', 'dependabot', 'epic', 'bug')
 DESTINATION_KINDS = ('DevelopmentBranch', 'StabilizationBranch',
                      'HotfixBranch')
+CLAUSES = ('classification', 'attributes', 'destination_flag',
+           'roundtrip_w', 'roundtrip_qw', 'roundtrip_q')
 DIGITS = '0123456789'
 LOWER = 'abcdefghijklmnopqrstuvwxyz'
 UPPER = 'ABCDEFGHIJKLMNOPQRSTUVWXYZ'
@@ -829,6 +831,8 @@ def run(tier: str = 'quick', seed: int = 0, jobs: int = 16) -> dict:
             sigs.items(), key=lambda kv: -kv[1][0])[:200]},
         'n_failure_signatures': len(sigs),
         'failure_groups': groups,
+        'clause_failures': {c: sum(v[0] for k, v in sigs.items()
+                                   if k.split('|')[0] == c) for c in CLAUSES},
         'samples': picked,
         'exhaustive': True,
         'wall_s': round(time.time() - t0, 2),
